@@ -39,7 +39,7 @@ def to_engine(yp, t, varmap, dots='listpair'):
     or with yp.functor('.', [h, t]) (as '.'(H,T) does); both are the same term"""
     k = t[0]
     if k == 'a':
-        return yp.atom(t[1])
+        return yp.atom(TextName(t[1]) if dots == 'textnames' else t[1])
     if k == 'c':
         return fresh_constant(t[1])
     if k == 'v':
@@ -49,10 +49,16 @@ def to_engine(yp, t, varmap, dots='listpair'):
         return v
     if k == 'f':
         args = [to_engine(yp, a, varmap, dots) for a in t[2]]
-        if t[1] == '.' and len(args) == 2 and dots == 'listpair':
+        if t[1] == '.' and len(args) == 2 and dots != 'functor':
             return yp.listpair(args[0], args[1])
-        return yp.functor(t[1], args)
+        return yp.functor(TextName(t[1]) if dots == 'textnames' else t[1], args)
     raise ValueError(t)
+
+
+class TextName(str):
+    """a name given as an instance of a str SUBCLASS (as enum.StrEnum members or the strings of
+    parsing libraries are): equal text, another type, a fresh object every time"""
+    __slots__ = ()
 
 
 def fresh_constant(v):
